@@ -251,10 +251,29 @@ pub fn gen_ops(rng: &mut Rng, len: usize, exec: &mut dyn FnMut(String) -> String
             3 => g.mutate(steps, 50, dump_every),
             4 => g.lookups(steps / 2 + 1),
             _ => {
-                if g.rng.chance(10) {
+                if g.rng.chance(14) {
+                    // clear() in the middle of a history (often with freed slots outstanding), then a refill that
+                    // outgrows everything the arenas held before: the second life of the map must be as good as the first
+                    let before = g.present.len();
                     (g.exec)("R clear".into());
                     g.present.clear();
                     (g.exec)("R dump".into());
+                    let want = before + before / 2 + 2 * g.cap + 4;
+                    let mut tries = 0;
+                    while g.present.len() < want && tries < 6 * want {
+                        tries += 1;
+                        let k = g.some_key();
+                        g.insert(k);
+                        if dump_every == 1 {
+                            (g.exec)("R dump".into());
+                        }
+                    }
+                    (g.exec)("R dump".into());
+                    (g.exec)("R len".into());
+                    for _ in 0..6 {
+                        let k = g.probe_key();
+                        (g.exec)(format!("R get {}", k));
+                    }
                 } else {
                     // drain completely in a chosen order (forces every merge / collapse path)
                     let mut keys: Vec<i64> = g.present.iter().copied().collect();
@@ -294,6 +313,12 @@ pub fn gen_iter(rng: &mut Rng, len: usize, exec: &mut dyn FnMut(String) -> Strin
     let rounds = 3 + g.rng.below(4) as usize;
     for r in 0..rounds {
         let bias = if r % 2 == 0 { 85 } else { 30 };
+        if r > 0 && g.rng.chance(30) {
+            (g.exec)("R clear".into());
+            g.present.clear();
+            g.removed.clear();
+            g.mutate(len / rounds + 1, 85, 0);
+        }
         g.mutate(len / rounds + 1, bias, 0);
         (g.exec)("R dump".into());
         for op in ["items", "itemsfast", "keys", "values", "slice", "first", "last"] {
@@ -360,6 +385,13 @@ pub fn gen_range(rng: &mut Rng, len: usize, exec: &mut dyn FnMut(String) -> Stri
     let rounds = 2 + g.rng.below(3) as usize;
     for r in 0..rounds {
         let bias = if r % 2 == 0 { 80 } else { 35 };
+        if r > 0 && g.rng.chance(35) {
+            // a map that has been through clear() and is refilled: the second life of the arenas
+            (g.exec)("R clear".into());
+            g.present.clear();
+            g.removed.clear();
+            g.mutate(len / rounds + 1, 85, 0);
+        }
         g.mutate(len / rounds + 1, bias, 0);
         let dtxt = (g.exec)("R dump".into());
         let dinfo = parse_dump(&dtxt);
@@ -635,11 +667,23 @@ const DAMAGE_KINDS: [&str; 14] = [
 /// C14: one valid state, one precise kind of damage, then every validator
 pub fn gen_damage(rng: &mut Rng, len: usize, exec: &mut dyn FnMut(String) -> String, case: usize) {
     let mut g = Gen::new(rng, exec);
-    g.start(true);
+    g.start(case % 4 != 0);
+    if g.cap > 33 {
+        g.cap = 33;
+        (g.exec)("R drop".into());
+        (g.exec)("R new 33".into());
+    }
     let grow = g.cap * (3 + g.rng.below(10) as usize) + len / 8;
     g.mutate(grow, 88, 0);
     if g.rng.chance(40) {
         g.mutate(grow / 3, 25, 0);
+    }
+    if g.rng.chance(30) {
+        // the damaged map is one that has been through clear() and was refilled
+        (g.exec)("R clear".into());
+        g.present.clear();
+        g.removed.clear();
+        g.mutate(grow, 90, 0);
     }
     (g.exec)("R check".into());
     let d = parse_dump(&(g.exec)("R dump".into()));
@@ -1125,7 +1169,16 @@ pub fn gen_deep(rng: &mut Rng, len: usize, exec: &mut dyn FnMut(String) -> Strin
         let cap = 65_536 + 4_464 * (1 + rng.below(3) as usize);
         let n = (cap as i64) * 2 + rng.range(0, 5000);
         exec(format!("O new {}", cap));
-        for i in 0..n {
+        // first a single leaf holding more than 65 535 entries (just below the capacity), then past the first splits
+        let first = cap as i64 - 1 - rng.range(0, 400);
+        for i in 0..first {
+            exec(format!("O insert {}#{} {}", 2 * i, i + 1, i + 1));
+        }
+        for op in ["len", "first", "last", "itemsfast", "items", "keys", "values", "fullcheck"] {
+            exec(format!("O {}", op));
+        }
+        exec(format!("O partialfast {} 2", first - 3));
+        for i in first..n {
             exec(format!("O insert {}#{} {}", 2 * i, i + 1, i + 1));
         }
         for op in ["len", "first", "last", "itemsfast", "items", "keys", "values", "fullcheck"] {
